@@ -20,7 +20,7 @@ pub fn check_c05(tier: Tier) -> i32 {
     let mut run = Run::new("C05", tier, "model_checking");
     let depth = tier.pick(3, 4);
     run.rule = format!(
-        "every state of the C06/C07/C08 history spaces (all histories of length <= {} over the function, global and memory alphabets on their base modules) is encoded three times in a row without edits; bytes1 = bytes2 = bytes3 and no later encoding may panic. (Instrumentation plans of C15-C21 are covered by the plan explorer's own re-encode clause, reported under C05 by `lowering`.) Non-trivial class = distinct operation multiset.",
+        "every state of the C06/C07/C08 history spaces (all histories of length <= {} over the function, global and memory alphabets on their base modules, and over the naming alphabet of C29 on its bases with complete name sections) is encoded three times in a row without edits; bytes1 = bytes2 = bytes3 and no later encoding may panic. (Instrumentation plans of C15-C21 are covered by the plan explorer's own re-encode clause, reported under C05 by `lowering`.) Non-trivial class = distinct operation multiset.",
         depth
     );
     let judge = |c: &Clause, _h: &[Op]| c.kind == ClauseKind::Reencode;
@@ -30,7 +30,10 @@ pub fn check_c05(tier: Tier) -> i32 {
     let fb = fn_bases();
     let gb = global_bases();
     let mb = mem_bases();
-    for (bases, alpha) in [(&fb, &fa as &(dyn Fn(&Model) -> Vec<Op> + Sync)), (&gb, &ga), (&mb, &ma)] {
+    // the bases with complete name sections: the name section is part of the bytes too
+    let nb = c29_bases();
+    let na = c29_alphabet();
+    for (bases, alpha) in [(&fb, &fa as &(dyn Fn(&Model) -> Vec<Op> + Sync)), (&gb, &ga), (&mb, &ma), (&nb, &na)] {
         let s = Search { bases, depth, cfg: CFG3, enabled: alpha, judge: &judge, relevant: &|_| true, max_states: tier.pick(1_000_000, 30_000_000) };
         run_search(&mut run, &s);
     }
